@@ -449,16 +449,13 @@ def check_body(facts, body, oracle, result_of="return", max_cases=400):
                         got = s3.env["arg1"]
                     compare(it, s3, got, exp)
                 except NeedCase as nc:
-                    sym = nc.poly.single_symbol()
-                    if sym is None:
+                    try:
+                        forks = it.fork_on(s3, ("zero", nc.poly))
+                    except Unsupported:
                         return ncases, failures, "comparison needs the zero-ness of compound term %r" % (nc.poly,)
-                    a = s3.fork()
-                    a.substitute(sym, Poly())
-                    a.trace.append("[%s=0]" % sym)
-                    b = s3.fork()
-                    b.add_nz(sym)
-                    b.trace.append("[%s!=0]" % sym)
-                    work.extend([a, b])
+                    for fk in forks:
+                        fk.trace[-1] = "[%s]" % fk.trace[-1]
+                    work.extend(forks)
                 except Mismatch as m:
                     failures.append("%s: %s" % (label, m))
                 except Unsupported as e:
@@ -930,6 +927,8 @@ def o_upow(c):
         return Poly.const(1)
     if A.is_const() and A.const_value() == 1:
         return Poly.const(1)
+    if not A.is_const() and c.st.known_zero(A - 1) is None and A.single_symbol():
+        raise NeedCase(A - 1)
     ka = c.st.known_zero(A)
     if ka is None:
         raise NeedCase(A)
